@@ -1,5 +1,5 @@
 import CollectionsC.Proofs.ArrayMem
-import CollectionsC.Proofs.ArrayZip
+import CollectionsC.Proofs.ArrayUncond
 import CollectionsC.Proofs.Stack
 import CollectionsC.Properties.C01
 /-! # C08 (array and stack part) — a refused allocation is atomic
@@ -226,15 +226,30 @@ theorem lifecycle_refused_iff (a : Arr) (cap b e : Nat) (grow : Nat → Nat) (ex
    (Arr.copyShallow_led a m).nrefused_iff.1, (Arr.copyDeep_led cp a m).nrefused_iff.1,
    (Arr.filter_led p a m).nrefused_iff.1⟩
 
-/-- iterator insertion; and the zip insertion on two arrays sharing one triple that are not at the
-capacity limit (at the limit `cc_array_zip_iter_add` also answers `CC_ERR_ALLOC`, without any refusal) -/
+/-- iterator insertion; and the zip insertion on two arrays of **any** triples (equal or mixed) that are
+not at the capacity limit (at the limit `cc_array_zip_iter_add` also answers `CC_ERR_ALLOC`, without any
+refusal) -/
 theorem iter_add_refused_iff (a a2 : Arr) (it : ArrIter) (x y : Nat) (m : Mem) (h1 : a.Inv) (h2 : a2.Inv)
-    (ht : a2.triple = a.triple) (hl1 : ¬ a.AtLimit) (hl2 : ¬ a2.AtLimit) :
+    (hl1 : ¬ a.AtLimit) (hl2 : ¬ a2.AtLimit) :
     ((a.iterAdd it x m).1 = .errAlloc ↔ (a.iterAdd it x m).2.2.2.nrefused = m.nrefused + 1) ∧
     ((Arr.zipAdd a a2 it x y m).1 = .errAlloc ↔ (Arr.zipAdd a a2 it x y m).2.2.2.2.nrefused = m.nrefused + 1) := by
   refine ⟨(Arr.iterAdd_led a it x m).nrefused_iff.1, ?_⟩
-  obtain ⟨_, _, z2, z3, _⟩ := Arr.zipAdd_led a a2 it x y m h1 h2 ht
+  obtain ⟨z2, z3, _⟩ := Arr.zipAdd_nrefused a a2 it x y m h1 h2
   exact ⟨fun h => z3 h hl1 hl2, fun h => z2 (by omega)⟩
+
+/-- **both allocators' live-block counts are kept by every growing call**, refused or not, whatever the
+triple of the array: `add`, `add_at`, `trim_capacity`, `iter_add` allocate and free through the array's
+own triple only; `zip_iter_add` through each array's own triple (equal or mixed triples, any cursor).
+(The atomicity theorems above state `live`; this adds `liveLibc`, i.e. the case of arrays built by
+`cc_array_new`.) -/
+theorem growing_calls_balance_both (a a2 : Arr) (x y i : Nat) (it : ArrIter) (m : Mem) (h1 : a.Inv) (h2 : a2.Inv) :
+    ((a.add x m).2.2.live = m.live ∧ (a.add x m).2.2.liveLibc = m.liveLibc) ∧
+    ((a.addAt x i m).2.2.live = m.live ∧ (a.addAt x i m).2.2.liveLibc = m.liveLibc) ∧
+    ((a.trimCapacity m).2.2.live = m.live ∧ (a.trimCapacity m).2.2.liveLibc = m.liveLibc) ∧
+    ((a.iterAdd it x m).2.2.2.live = m.live ∧ (a.iterAdd it x m).2.2.2.liveLibc = m.liveLibc) ∧
+    ((Arr.zipAdd a a2 it x y m).2.2.2.2.live = m.live ∧ (Arr.zipAdd a a2 it x y m).2.2.2.2.liveLibc = m.liveLibc) :=
+  ⟨(Arr.add_led a x m).balanced, (Arr.addAt_led a x i m).balanced, (Arr.trimCapacity_led a m).balanced,
+   (Arr.iterAdd_led a it x m).balanced, Arr.zipAdd_balanced a a2 it x y m h1 h2⟩
 
 /-! ## `continue`: after a refused call the history goes on as if the call had not been made -/
 
